@@ -75,6 +75,18 @@ class Concatenator(Transformer):
 
             reindexed_data_list.append(reindexed)
 
+        # The items must hold the same samples. The concatenation joins them by label
+        # and would fill the samples that an item lacks (e.g. because only this item
+        # was entirely missing there) with NaN
+        samples = reindexed_data_list[0].indexes[self.sample_name]
+        for reindexed in reindexed_data_list[1:]:
+            other = reindexed.indexes[self.sample_name]
+            if other.size != samples.size or not other.isin(samples).all():
+                raise ValueError(
+                    "Invalid input. The DataArrays do not share the same samples; "
+                    "samples that are missing in some of them only cannot be handled."
+                )
+
         X_concat: DataArray = xr.concat(reindexed_data_list, dim=self.feature_name)
         self.coords_out = X_concat.coords[self.feature_name]
 
